@@ -116,7 +116,8 @@ def dijkstra_edges(
         adj[u].append((v, w))
 
     if target is not None:
-        return dijkstra(source, target, lambda s: adj[s])
+        # every node is closed at most once, so n_nodes + 1 never cuts the search short (the generic default would)
+        return dijkstra(source, target, lambda s: adj[s], max_iter=n_nodes + 1)
 
     # All-distances mode: minimal Dijkstra to collect distances
     dist: dict[int, float] = {source: 0.0}
